@@ -23,6 +23,14 @@ def from_error(kind, t):
            "STEPD": table("win2", p.get("window_size", 0), hasrecs=True)}[kind]
     out, errs, prev = [], 0, "None"
     for e in t["ev"]:
+        if e["op"] == "reset":         # the caller's reset(): a new epoch, wherever it falls (inside a warning zone too)
+            errs = 0
+            out.append(ev("reset", e, e["recs"]))
+            prev = e["state"]
+            continue
+        if e["op"] != "update":
+            out.append(ev("refused", e, e["recs"]))
+            continue
         if prev == "drift":
             errs = 0
         errs += e["c"]
@@ -130,10 +138,10 @@ def from_md3(t):
 
 def sabotage(trace, rng):
     ks = [k for k, e in enumerate(trace["ev"]) if e["op"] == "update"]
-    if len(ks) < 3:
+    if len(ks) < 6:
         return None
-    k = rng.choice(ks[1:])
+    k = rng.choice(ks[1:-3])          # (not near the end: some single-field changes are only exposed by the event that follows)
     e = trace["ev"][k]
-    w = rng.choice(["since", "total"])
+    w = "since" if 2 in trace["cfg"].get("incs", [1]) else rng.choice(["since", "total"])     # (HDM detect_batch=1 legitimately counts one or two per update)
     e[w] += 1
     return trace, None, w
